@@ -28,7 +28,9 @@ RECURSIVE Perms(_)
 Perms(S) == IF S = {} THEN {<< >>} ELSE UNION {{<<x>> \o p : p \in Perms(S \ {x})} : x \in S}
 InjSeqs(nz, maxlen) == UNION {Perms(S) : S \in {T \in SUBSET (0..(nz - 1)) : T # {} /\ Cardinality(T) <= maxlen}}
 
-LevelChoices(nz) ==
+\* duplicated levels are outside the properties ("any subset and any order"): candidate lists with repetitions are dropped
+Distinct(S) == {l \in S : Cardinality(SeqRange(l)) = Len(l)}
+LevelCandidates(nz) ==
     CASE LevelLists = "single" -> {<<nz \div 2>>, <<nz - 1>>}
       [] LevelLists = "mid"    -> {<<nz \div 2>>}
       [] LevelLists = "asc"    -> {<<nz \div 2>>, <<nz - 1>>, <<0, nz - 1>>, <<1, nz \div 2, nz - 1>>}
@@ -36,6 +38,8 @@ LevelChoices(nz) ==
       [] LevelLists = "pairs"  -> InjSeqs(nz, 2)
       [] LevelLists = "perms"  -> InjSeqs(nz, nz)
       [] LevelLists = "perms3" -> InjSeqs(nz, 3)
+
+LevelChoices(nz) == Distinct(LevelCandidates(nz))
 
 Base == [nx |-> 2, ny |-> 2, ax |-> 1, ay |-> 1, halo |-> 0, mx |-> 2, my |-> 2, xm |-> 0, ym |-> 0,
          fp |-> FALSE, an |-> FALSE, nz |-> 3, lv |-> <<1>>, src |-> <<"rnd", 1, 0>>, bg |-> 0, tab |-> 1,
